@@ -202,7 +202,10 @@ def compare_accept(res, st, tag, cases, impl, findings, pending):
             f = (i.rstrip("\n").split("|", 3) + [""] * 4)[:4]
             nl, ns, nv, detail = f
             kind = c.split(" ", 1)[0]
-            if kind == "G":
+            if kind == "O":
+                text = c[2:]
+                label = "optional-parts family"
+            elif kind == "G":
                 _, style, hx = c.split(" ", 2)
                 text = bytes.fromhex(hx).decode("latin-1")
                 label = "generated program (%s spacing)" % ("generous" if style == "g" else "minimal")
@@ -401,6 +404,7 @@ def main(tier, replay=None):
         sampled += lex_stream("exhaustive", "exhaustive4" if thorough else "exhaustive3", 0, 9001 if thorough else 301)
         sampled += lex_stream("random", "random", 1000000 if thorough else 20000, 20011 if thorough else 401)
         sampled += lex_stream("slices", "slices", 100000 if thorough else 4000, 5003 if thorough else 211)
+        accept_stream("opt", "opt", 0)
         accept_stream("libs", "libs", 0)
         accept_stream("gen", "gen", 10000 if thorough else 400)
 
@@ -438,7 +442,7 @@ def main(tier, replay=None):
         "doubled quotes and Latin-1 letters, character literals and tick contexts, junk characters (% ! $ NBSP VT FF); joined "
         "with generous gaps (blanks, tabs, LF/CR/CRLF, line and block comments), with NO gap (minimal spacing) or mixed; random "
         "bytes; mutated windows of the bundled library files.  ACCEPTANCE: all bundled library files (example_project holds no "
-        "VHDL file in this tree), generated programs (package + body, entity, architecture; declarations of every class, "
+        "VHDL file in this tree), the OPTIONAL-PARTS family (for every compound construct — case/case?, if, loops, process, block, all generate forms with alternative and end labels, subprogram bodies incl. operator symbols, packages, bodies, entities, architectures, configurations, contexts, records, protected types, units, components, every assignment/assert/wait/call form — the full cross product of its LRM-valid optional parts: [label :] ... end <kw> [?] [label]; about 5 500 design files, each with single blanks and with minimal spacing), generated programs (package + body, entity, architecture; declarations of every class, "
         "functions, components, processes with every sequential statement, concurrent assignments, instantiations, generate, "
         "block; expressions per type with every operator and literal form, extended identifiers) printed alternately with "
         "generous spacing (comments, CRLF) and minimal legal spacing (`1:=1`).  non-trivial = clean for both lexers, no "
